@@ -443,6 +443,7 @@ func init() {
 		c.runTemplateClose(r, "template.close", "wgsl/internal/parser")
 		c.runHelperDedupScope(r, "helper.dedupscope", all)
 		c.runImageCoordMerge(r, "image.coordmerge", "hlsl/internal/codegen")
+		c.runErrNilOnly(r, "errflow.nilonly", inPkgs("wgsl"), nil)
 		cnt := map[string]int{}
 		for _, o := range r.Obs {
 			if o.Verdict == "ok" || o.Verdict == "trivial" {
@@ -758,4 +759,102 @@ func (c *Ctx) runSamplerPrecision(r *Report, rule string, pkg string) {
 		})
 	}
 	r.inst("glsl.samplerprecision", n)
+}
+
+// errflow.nilonly (C11): `if v, err := f(t); err == nil { use v }` with no else
+// branch discards the error. Where t is a type the user wrote (the argument is
+// a parser Type node) the error means "undeclared / malformed type": dropping it
+// compiles `let x: bogus = 1;` as if there were no annotation. Expected zero;
+// the total number of calls that resolve a user-written type is the floor.
+func (c *Ctx) runErrNilOnly(r *Report, rule string, pkgs func(string) bool, exceptions map[string]string) {
+	n := 0
+	errorT := types.Universe.Lookup("error").Type()
+	for _, fn := range c.allFuncs() {
+		if !pkgs(fn.Pkg.Rel) {
+			continue
+		}
+		info := fn.Pkg.Info
+		ord := map[string]int{}
+		ast.Inspect(fn.Decl.Body, func(m ast.Node) bool {
+			ifs, ok := m.(*ast.IfStmt)
+			if !ok || ifs.Init == nil || ifs.Else != nil {
+				return true
+			}
+			as, ok := ifs.Init.(*ast.AssignStmt)
+			if !ok || as.Tok != token.DEFINE || len(as.Rhs) != 1 || len(as.Lhs) < 2 {
+				return true
+			}
+			call, ok := ast.Unparen(as.Rhs[0]).(*ast.CallExpr)
+			if !ok {
+				return true
+			}
+			eid, ok := as.Lhs[len(as.Lhs)-1].(*ast.Ident)
+			if !ok || eid.Name == "_" {
+				return true
+			}
+			eobj := info.Defs[eid]
+			if eobj == nil || !types.Identical(eobj.Type(), errorT) {
+				return true
+			}
+			be, ok := ast.Unparen(ifs.Cond).(*ast.BinaryExpr)
+			if !ok || be.Op != token.EQL {
+				return true
+			}
+			xi, ok := ast.Unparen(be.X).(*ast.Ident)
+			if !ok || info.Uses[xi] != eobj {
+				return true
+			}
+			if yi, ok := ast.Unparen(be.Y).(*ast.Ident); !ok || yi.Name != "nil" {
+				return true
+			}
+			f := calleeOf(info, call)
+			name := "?"
+			if f != nil {
+				name = f.Name()
+			}
+			// only lookups of a user-written TYPE (an argument whose static type is the parser's Type node)
+			userType := false
+			for _, a := range call.Args {
+				if t := info.TypeOf(a); t != nil {
+					if nt := namedOf(t); nt != nil && nt.Obj().Name() == "Type" && nt.Obj().Pkg() != nil && strings.HasSuffix(nt.Obj().Pkg().Path(), "/parser") {
+						userType = true
+					}
+				}
+			}
+			if !userType {
+				return true
+			}
+			n++
+			key := fn.id() + ":" + name
+			ord[key]++
+			cons := key + "#" + itoa(ord[key])
+			if why := exceptions[cons]; why != "" {
+				r.exc(rule, cons, c.pos(ifs.Pos()), why)
+			} else {
+				r.viol(rule, cons, c.pos(ifs.Pos()), fn.id()+" uses the result of "+name+" only when it succeeded and drops its error otherwise (no else branch, the error is not looked at again): an invalid input at this point is accepted silently")
+			}
+			return true
+		})
+	}
+	// vacuity: calls that resolve a user-written type at all
+	total := 0
+	for _, fn := range c.allFuncs() {
+		if !pkgs(fn.Pkg.Rel) {
+			continue
+		}
+		ast.Inspect(fn.Decl.Body, func(m ast.Node) bool {
+			if call, ok := m.(*ast.CallExpr); ok {
+				for _, a := range call.Args {
+					if t := fn.Pkg.Info.TypeOf(a); t != nil {
+						if nt := namedOf(t); nt != nil && nt.Obj().Name() == "Type" && nt.Obj().Pkg() != nil && strings.HasSuffix(nt.Obj().Pkg().Path(), "/parser") {
+							total++
+						}
+					}
+				}
+			}
+			return true
+		})
+	}
+	r.inst("errflow.usertype-lookups", total)
+	r.inst("errflow.nilonly", n)
 }
